@@ -30,6 +30,11 @@ type Stream struct {
 	Distribution  map[string]int `json:"distribution,omitempty"`
 	Samples       []string       `json:"samples,omitempty"`
 	Exhaustive    bool           `json:"exhaustive,omitempty"`
+	// Labels, when set (same length as the lines), are human-readable renderings of the
+	// protocol lines used in disagreement reports.
+	Labels []string `json:"-"`
+	// Why counts the reasons the model gave for not covering a case.
+	Why map[string]int `json:"unmodelled_reasons,omitempty"`
 }
 
 // Violation is a concrete input on which the REAL code breaks the property.
@@ -147,14 +152,26 @@ func (s *Stream) Compare(lines, impl, model []string) {
 		}
 		if len(model[i]) > 0 && model[i][0] == '?' {
 			s.Unmodelled++
+			if s.Why == nil {
+				s.Why = map[string]int{}
+			}
+			why := model[i]
+			if len(why) > 60 {
+				why = why[:60]
+			}
+			s.Why[why]++
 			continue
 		}
 		s.Compared++
 		distinct[impl[i]] = true
 		if impl[i] != model[i] {
 			s.Disagreements++
-			if len(s.First) < 5 {
-				s.First = append(s.First, Disagreement{Line: clip(lines[i]), Model: clip(model[i]), Impl: clip(impl[i])})
+			if len(s.First) < maxFirst() {
+				l := lines[i]
+				if i < len(s.Labels) {
+					l = s.Labels[i] + "   [" + clip(lines[i]) + "]"
+				}
+				s.First = append(s.First, Disagreement{Line: l, Model: clip(model[i]), Impl: clip(impl[i])})
 			}
 		}
 		if len(s.Samples) < 3 && i%(len(lines)/3+1) == 0 {
@@ -162,6 +179,13 @@ func (s *Stream) Compare(lines, impl, model []string) {
 		}
 	}
 	s.Distinct += len(distinct)
+}
+
+func maxFirst() int {
+	if os.Getenv("VERIF_DEBUG") != "" {
+		return 200
+	}
+	return 5
 }
 
 func clip(s string) string {
@@ -188,6 +212,7 @@ func (c *Ctx) RunStream(s *Stream, lines, impl []string) {
 func (c *Ctx) Finish() {
 	for _, s := range c.Res.Streams {
 		s.Distribution = trimDist(s.Distribution)
+		s.Why = trimDist(s.Why)
 	}
 	for _, o := range c.Res.Oracles {
 		o.Distribution = trimDist(o.Distribution)
